@@ -134,7 +134,8 @@ def case_numeric(ctx, p):
     lam = p["lam"] if p["lam"] * oracle.stl(c, h) < 0.95 else 0.9 / (2 * oracle.stl(c, h))     # keep lambda.sintl < 1
     P("tth", (c, h, lam))
     # a refinement loop: each module is handed the same container object again after it was updated in place
-    held_t, held_l = list(c), list(c)
+    fresh = [c[0] * 1.0625, c[1] * 0.9375, c[2]] + list(c[3:])          # first seen through the held objects
+    held_t, held_l = (list(fresh), list(fresh)) if h[0] % 2 else (np.array(fresh, float), np.array(fresh, float))
     P("sintl", (held_t, h), (held_l, h))
     for held in (held_t, held_l):
         held[0] *= 1.0371
